@@ -504,6 +504,13 @@ void c28_scenarios(Ctx& c, Rng& r, std::uint64_t scenario, const std::string& pf
             std::vector<std::uint8_t> body;
             if (fetch_mode) h = {{"COMMAND", "FETCH"}, {"MANIFEST", held_uri}, {"STREAM", "client"}};
             else { body = r.bytes(8 + r.below(24)); h = {{"COMMAND", "STORE"}, {"PAYLOAD-LENGTH", std::to_string(body.size())}, {"TTL", "600"}}; }
+            // one request in five is one the daemon refuses for a reason of its own (a TTL it cannot parse or outside the
+            // window): whatever happens to it, it must not make room for an extra accepted request
+            const bool noise = !fetch_mode && r.chance(1, 5);
+            if (noise) {
+                static const char* bad_ttl[] = {"abc", "", "-5", "99999999999", "1e3"};
+                h[2].second = bad_ttl[r.below(5)];
+            }
             const auto vary = r.below(8);
             if (vary >= 5) {
                 // headers that belong to other request shapes: an OUT path next to STREAM:client, a file name, a stray STREAM on STORE
@@ -527,6 +534,8 @@ void c28_scenarios(Ctx& c, Rng& r, std::uint64_t scenario, const std::string& pf
                 if (in_window > limit)
                     c.violation(fetch_mode ? "C28:rate:more-than-12-streamed-fetches-in-30s" : "C28:rate:more-than-6-stores-in-30s",
                                 J().kv("accepted_in_window", in_window).kv("varying_header", vary == 0 ? "fresh TOKEN" : (vary == 1 ? "empty TOKEN" : (vary == 2 ? "X-CLIENT" : (vary == 3 ? "same TOKEN" : (vary >= 5 ? "OUT / FILENAME / STREAM of another request shape" : "none"))))).str());
+            } else if (noise && resp.code().find("RATE") == std::string::npos) {
+                c.note("rate.refused-for-another-reason");
             } else {
                 c.note("rate.refused");
                 if (resp.code().find("RATE") == std::string::npos) c.violation("C28:rate:unexpected-refusal", J().kv("code", resp.code()).str());
